@@ -91,7 +91,7 @@ Section Gsa.
         split; [split; intro; discriminate|]. split.
         - rewrite find_default_naming, Hl. reflexivity.
         - apply has_flatten_naming. exact Hf. }
-      destruct d; try (eapply G; [| |exact H]; reflexivity).
+      destruct (unboxed T d); try (eapply G; [| |exact H]; reflexivity).
       (* DMap *)
       repeat match type of H with
              | context [match get_det T ?k with _ => _ end] => destruct (get_det T k); [|discriminate]
@@ -484,19 +484,19 @@ Section BuilderProofs.
     has_flatten (f_attrs f) = false ->
     forall v, de_missing T f = Some v ->
     init_slot f = SOk v \/
-    (f_dfun f = DFNone /\ (exists t, get_det T (f_ty f) = Some (DOption t)) /\ v = default_of (f_ty f)).
+    (f_dfun f = DFNone /\ (exists t, option_map (unboxed T) (get_det T (f_ty f)) = Some (DOption t)) /\ v = default_of (f_ty f)).
   Proof.
     intros T f Hc Hf v H. unfold Builder.de_missing in H. rewrite Hf in H.
     unfold dfun_of_attrs in Hc. unfold Builder.init_slot.
     destruct (find_default (f_attrs f)) as [o|] eqn:Ed.
     - destruct o; rewrite <- Hc.
       1,2,5: (right; split; [reflexivity|];
-              destruct (get_det T (f_ty f)) as [d|]; [|discriminate]; destruct d; try discriminate;
+              destruct (option_map (unboxed T) (get_det T (f_ty f))) as [d|]; [|discriminate]; destruct d; try discriminate;
               inversion H; subst; split; [eexists; reflexivity|reflexivity]).
       + left. inversion H; subst. reflexivity.
       + left. inversion H; subst. reflexivity.
     - right. rewrite <- Hc. split; [reflexivity|].
-      destruct (get_det T (f_ty f)) as [d|]; [|discriminate]. destruct d; try discriminate.
+      destruct (option_map (unboxed T) (get_det T (f_ty f))) as [d|]; [|discriminate]. destruct d; try discriminate.
       inversion H; subst. split; [eexists; reflexivity|reflexivity].
   Qed.
 End BuilderProofs.
@@ -540,7 +540,7 @@ Section Emitted.
     has_flatten (f_attrs f) = false ->
     de_missing V default_of call_fn flat_none T f = Some v ->
     init_slot V default_of call_fn f = SOk v \/
-    (f_dfun f = DFNone /\ (exists t, get_det T (f_ty f) = Some (DOption t)) /\ v = default_of (f_ty f)).
+    (f_dfun f = DFNone /\ (exists t, option_map (unboxed T) (get_det T (f_ty f)) = Some (DOption t)) /\ v = default_of (f_ty f)).
   Proof.
     intros T n ps fs f v H Hin Hf Hd.
     destruct (emit_fields_In snake _ _ _ _ _ H Hin) as (p & _ & Hp).
